@@ -56,6 +56,9 @@ def gen_requests(rng, tier):
             runs, gens = 1, 2
         reqs.append("dss %d %d %d %d %d %d %d" % (n, gap, initial_va, runs, gens,
                                                   rng.below(1 << 31), rng.next()))
+    # ---- dataframe::clone_schema on its own: metadata only --------------------------------------
+    for k in range(24 if tier == "quick" else 600):
+        reqs.append("schema %d %d %d" % (rng.between(0, 13), rng.choice([0, 0, 1, 3]), rng.next()))
     return reqs
 
 
@@ -310,6 +313,15 @@ def run(chk, replay=None):
         if kind == "dss" and re.search(r":\d{19,}\b|:\d{7,}:", st):
             chk.count("counters near the limits of their types")
         tags = {"kind": kind if src == "direct" else "search", "clause": orc, "call": " ".join(head[:2])}
+        if orc == "schema":
+            # the examples are where the property wants them; only the METADATA of the validation frame is not the
+            # training frame's (the model – Bridge.lean – says clone_schema gives it): the model no longer describes
+            # the code, but no clause of C16 fails on this input
+            if len(broken) < 5:
+                broken.append("%s: after `%s` the validation frame does not carry the metadata (classes()) of the "
+                              "training frame, as the extracted program / model say it does – request `%s`; step: %s"
+                              % (kind, " ".join(head), req, st[:300]))
+            continue
         if orc != "fine":
             found.append((n_ex, "%s: the strategy call `%s` broke the property (%s) – request `%s`; observed "
                           "step: %s" % (kind, " ".join(head), orc, req, st[:600]),
